@@ -89,4 +89,4 @@ package parser
 //@   requires parser != nil && parser.Source != nil
 //@   ensures err == nil ==> ttype != nil
 //@   ensures old(parser.Token.Kind) != lexer.BRACKET_L && old(parser.Token.Kind) != lexer.NAME ==> err != nil
-//@   at call expect: assert arg1 == lexer.BRACKET_R
+//@   at call advance: assert parser.Token.Kind == lexer.BRACKET_L || parser.Token.Kind == lexer.BRACKET_R
